@@ -140,6 +140,8 @@ def check(run):
                 takes = [n for n in ast.walk(cm.node) if isinstance(n, ast.Call) and isinstance(n.func, ast.Attribute)
                          and n.func.attr == 'take' and norm(n.func.value) == 'self']
                 run.check(len(takes) == 1, 'R10.order', cm, 'self.take(gate)', 'every gate of the other circuit is taken exactly once')
+    K.mask_function(run, repo, K.PY_U)
+    K.mask_function(run, repo, K.TC_U)
     entries = []
     for pkg in ('pyclifford', 'torchclifford'):
         for cname in ('CliffordGate', 'CliffordLayer', 'CliffordCircuit', 'Circuit'):
@@ -150,6 +152,7 @@ def check(run):
                         entries.append(c.methods[m])
     resolve.check_cone(run, repo, entries, 'circuit forward')
     run.floor('R11.indep', 4)
+    run.floor('R13.maskfn', 6)
     run.floor('R10.gen', 12)
     run.floor('R10.order', 8)
     run.floor('R10.fold', 3)
